@@ -272,16 +272,103 @@ func c18Gen(t *rapid.T) c18Case {
 	return c
 }
 
+// c18Crowd: a busy link - N distinct senders, each heard once (the messages cycle through a few generated
+// templates), then a few more messages from the usual hosts and from members of the crowd.  Every one of them must
+// be counted, however many there are: nothing in the statement bounds the number of senders a monitor hears.
+type c18Crowd struct {
+	N     int      `json:"n_senders"`
+	Style int      `json:"address_style"`
+	Tmpl  []c18Msg `json:"templates"`
+	After []c18Msg `json:"after"`
+	Again []int    `json:"again"` // crowd members heard a second time at the end
+}
+
+func (c c18Crowd) addr(i int) string {
+	switch c.Style {
+	case 0:
+		return fmt.Sprintf("fe80::1:%x:%x", i>>16, i&0xffff)
+	case 1:
+		return fmt.Sprintf("2001:db8:%x:%x::1", i>>16, i&0xffff)
+	default:
+		return fmt.Sprintf("fe80::%x:%x:0:1", i&0xffff, i>>16)
+	}
+}
+
+func c18CrowdProp(k *verifkit.Kit) func(c c18Crowd) error {
+	return func(c c18Crowd) error {
+		k.Record(c, c.N > 16, fmt.Sprintf("senders>=2^%d", bitsLen(c.N)))
+		mem := metricslite.NewMemory()
+		mm := NewMetrics(mem, "verif", time.Time{}, system.TestState{}, nil)
+		cctx := NewContext(log.New(&lockedBuf{}, "", 0), mm, system.TestState{})
+		mon := NewMonitor(cctx, "eth1", nil, nil, false)
+		now := time.Unix(1700000000, 0)
+		mon.now = func() time.Time { return now }
+		model := c18Model{}
+		hear := func(msg c18Msg) {
+			now = now.Add(time.Millisecond)
+			mon.handle(c18Build(msg), msg.From)
+			c18Apply(model, msg, now, "eth1")
+		}
+		for i := 0; i < c.N; i++ {
+			msg := c.Tmpl[i%len(c.Tmpl)]
+			msg.From = c.addr(i)
+			hear(msg)
+		}
+		for _, msg := range c.After {
+			hear(msg)
+		}
+		for j, i := range c.Again {
+			msg := c.Tmpl[j%len(c.Tmpl)]
+			msg.From = c.addr(i % max(c.N, 1))
+			hear(msg)
+		}
+		series, _ := mm.Series()
+		return c18Compare(model, series, c.N+len(c.After)+len(c.Again)-1)
+	}
+}
+
+func bitsLen(n int) int {
+	b := 0
+	for n > 1 {
+		n >>= 1
+		b++
+	}
+	return b
+}
+
+func c18GenCrowd(thorough bool) func(t *rapid.T) c18Crowd {
+	return func(t *rapid.T) c18Crowd {
+		ns := []int{17, 64, 255, 256, 257, 300, 1000, 1025}
+		if thorough {
+			ns = append(ns, 4097, 20000, 65537)
+		}
+		c := c18Crowd{N: rapid.SampledFrom(ns).Draw(t, "senders"), Style: rapid.IntRange(0, 2).Draw(t, "style")}
+		if rapid.Bool().Draw(t, "anyn") {
+			c.N = rapid.IntRange(1, 2000).Draw(t, "nsenders")
+		}
+		c.Tmpl, c.After = c18Gen(t).Msgs, c18Gen(t).Msgs
+		for i, n := 0, rapid.IntRange(0, 4).Draw(t, "nagain"); i < n; i++ {
+			c.Again = append(c.Again, rapid.IntRange(0, c.N-1).Draw(t, "again-member"))
+		}
+		return c
+	}
+}
+
 func TestVerif_C18(t *testing.T) {
 	k := verifkit.Start(t, "C18")
 	prop := c18Prop(t, k)
 	wire := wireProp(k.Record, false)
+	crowd := c18CrowdProp(k)
 	k.Regress(t, func(sub string, raw json.RawMessage) error {
 		if strings.HasPrefix(sub, "wire") {
 			return verifkit.Decode(raw, wire)
 		}
+		if strings.HasPrefix(sub, "many") {
+			return verifkit.Decode(raw, crowd)
+		}
 		return verifkit.Decode(raw, prop)
 	})
+	verifkit.Rapid(k, t, "many-senders", k.N(60, 3000), c18GenCrowd(k.Thorough()), crowd)
 	verifkit.Rapid(k, t, "message-sequences", k.N(5000, 1000000), c18Gen, prop)
 	verifkit.Rapid(k, t, "wire-bytes", k.N(20000, 4000000), wireGen, wire)
 }
